@@ -10,6 +10,7 @@ R4 EFFECT     no reachable function writes registry globals / module-level conta
 from __future__ import annotations
 
 import ast
+import re as _re
 import json
 import os
 from typing import Dict, List, Set
@@ -477,7 +478,7 @@ def mac_input_rule(prog, chk, pid, an: ExcAnalysis):
             i_ = 0
             while i_ < len(stmts_):
                 st_ = stmts_[i_]
-                if isinstance(st_, ast.For) and isinstance(st_.target, ast.Name) and st_.target.id.startswith("__g") and st_.target.id.endswith("_once"):
+                if isinstance(st_, ast.For) and isinstance(st_.target, ast.Name) and _re.fullmatch(r"__g\d*_once\d*", st_.target.id):
                     stmts_[i_:i_ + 1] = st_.body
                     continue
                 for fld_ in ("body", "orelse", "finalbody"):
